@@ -19,6 +19,7 @@ package webrtc
 
 import (
 	"fmt"
+	"os"
 	"sort"
 	"strconv"
 	"strings"
@@ -54,7 +55,14 @@ type c06Hist struct {
 	aborted         bool
 }
 
-func (h *c06Hist) logf(f string, a ...any) { h.ops = append(h.ops, fmt.Sprintf(f, a...)) }
+func (h *c06Hist) logf(f string, a ...any) {
+	h.ops = append(h.ops, fmt.Sprintf(f, a...))
+	if c06Trace {
+		fmt.Printf("T %d %s\n", h.idx, h.ops[len(h.ops)-1])
+	}
+}
+
+var c06Trace = os.Getenv("C06_TRACE") != "" //nolint:gochecknoglobals
 
 func c06Short(err error) string {
 	s := err.Error()
@@ -339,8 +347,8 @@ func (h *c06Hist) localOp(p *c06Peer, addBias bool) { //nolint:cyclop
 	switch op {
 	case 0, 1:
 		dir := kit.Pick(r, []RTPTransceiverDirection{
-			RTPTransceiverDirectionSendrecv, RTPTransceiverDirectionSendonly, RTPTransceiverDirectionRecvonly,
-			RTPTransceiverDirectionRecvonly, RTPTransceiverDirectionInactive,
+			RTPTransceiverDirectionSendrecv, RTPTransceiverDirectionSendrecv, RTPTransceiverDirectionSendonly, RTPTransceiverDirectionSendonly,
+			RTPTransceiverDirectionRecvonly, RTPTransceiverDirectionRecvonly, RTPTransceiverDirectionRecvonly, RTPTransceiverDirectionInactive,
 		})
 		_, err := pc.AddTransceiverFromKind(kind, RTPTransceiverInit{Direction: dir})
 		h.logf("%s.AddTransceiverFromKind(%s,%s)", p.name, kind, dir)
@@ -562,6 +570,20 @@ func (h *c06Hist) runGen(p *c06Peer, midStyle int) { //nolint:cyclop
 
 		return
 	}
+	if g.Bundle && r.Chance(0.15) {
+		// legal: the offerer bundles only some of its accepted sections
+		var acc []string
+		for _, m := range g.Media {
+			if m.Port != 0 {
+				acc = append(acc, m.Mid)
+			}
+		}
+		if len(acc) >= 2 {
+			k := r.Intn(len(acc))
+			g.BundleMids = append(append([]string{}, acc[:k]...), acc[k+1:]...)
+			h.run.Count("gen_offers_partial_bundle", 1)
+		}
+	}
 	var mids []string
 	for _, m := range g.Media {
 		mids = append(mids, m.Mid)
@@ -622,9 +644,6 @@ func (h *c06Hist) runGen(p *c06Peer, midStyle int) { //nolint:cyclop
 		}
 		mirror := c06MirrorAnswer(offer.SDP, round)
 		h.remoteTexts = append(h.remoteTexts, mirror)
-		if d, perr := kit.ParseSDP(mirror); perr == nil && !c06Dense(c06Mids(d)) {
-			h.remoteNonDense = true
-		}
 		h.logf("foreign mirror answer applied")
 		if err = p.pc.SetRemoteDescription(SessionDescription{Type: SDPTypeAnswer, SDP: mirror}); err != nil {
 			h.apiErr("SetRemoteDescription(mirror answer)", err)
@@ -665,10 +684,14 @@ func TestVerifC06(t *testing.T) {
 	run.Assume("'exactly one direction attribute' is applied to every accepted m-section including m=application (this tree emits a=sendrecv there)")
 	run.Assume("errors returned by the API (e.g. ErrIncorrectSDPSemantics for a non-Plan-B offer under SDPSemanticsPlanB) end a history without verdict")
 
-	n := kit.N(640, 16000)
+	n := kit.N(1200, 24000)
 	run.Parallel(n, 16, func(i int) {
 		r := run.CaseRand(i)
 		h := &c06Hist{run: run, idx: i, r: r}
+		if os.Getenv("C06_TRACE") != "" {
+			fmt.Printf("TRACE start %d\n", i)
+			defer func() { fmt.Printf("TRACE end %d\n", i) }()
+		}
 		defer func() {
 			if rec := recover(); rec != nil {
 				run.Inconclusive(fmt.Sprintf("panic in history: %v", rec))
@@ -678,6 +701,9 @@ func TestVerifC06(t *testing.T) {
 		sem := kit.Pick(r, []SDPSemantics{
 			SDPSemanticsUnifiedPlan, SDPSemanticsUnifiedPlan, SDPSemanticsUnifiedPlan, SDPSemanticsPlanB, SDPSemanticsUnifiedPlanWithFallback,
 		})
+		if os.Getenv("C06_ONLYSEM") == "unified" {
+			sem = SDPSemanticsUnifiedPlan
+		}
 		bp := kit.Pick(r, []BundlePolicy{BundlePolicyUnknown, BundlePolicyBalanced, BundlePolicyMaxCompat, BundlePolicyMaxBundle})
 		mediaFP := r.Chance(0.35)
 		always := r.Chance(0.15)
